@@ -286,4 +286,119 @@ def programByName (n : String) : Option Prog :=
   if n == "vvcBwdScalarOld" then some vvcBwdScalarOld
   else (programs.find? (·.1 == n)).map (·.2)
 
+
+/-! ## Programs with element-internal cells (the stateful families)
+
+Parameter setters of agnostic elements clear the instance cache (`clear_cache()`); that is modelled
+as the parameter being part of the cell's key (C05 proves the setter side: `setter_takes_effect`).
+Operation numbers are opaque; `param i` are the element's mutable parameters. -/
+
+def opMake := 10
+def opLincomb := 11
+def opPhase := 12
+def opShift := 13
+def opPad := 14
+def opFT := 15
+def opMatrices := 16
+def opPoint := 17
+def opApply := 18
+
+/-- fibres, empty element, perfect coronagraph, knife edge, Jones beam splitters, vibration …:
+nothing is kept between calls. -/
+def iStateless : IProg :=
+  { keyAtoms := fun _ => [], spec := fun _ => .atom .grid, body := [], ret := .op1 opApply .field }
+
+/-- every `AgnosticOpticalElement`: `get_instance_data` looks the `(grid, wavelength)` key up in
+`_instance_data_cache`, builds the `InstanceData` from the element's parameters on a miss and
+stores it under that key. -/
+def iAgnosticSpec : IExpr := .op2 opMake (.op2 opMake (.atom (.param 0)) (.atom .grid)) (.atom .wavelength)
+def iAgnostic : IProg :=
+  { keyAtoms := fun _ => [.param 0, .grid, .wavelength], spec := fun _ => iAgnosticSpec,
+    body := [.memoRead 1 0 iAgnosticSpec, .memoFill 0 iAgnosticSpec],
+    ret := .op2 opMul .field (.loc 1) }
+
+/-- `DeformableMirror.surface` (also segmented and tip-tilt mirrors): `_surface` is the linear
+combination for `_actuators_for_cached_surface`; recomputed when the actuators differ. -/
+def iMirrorSpec : IExpr := .op1 opLincomb (.atom (.param 0))
+def iMirror : IProg :=
+  { keyAtoms := fun _ => [.param 0], spec := fun _ => iMirrorSpec,
+    body := [.memoRead 1 0 iMirrorSpec, .memoFill 0 iMirrorSpec],
+    ret := .op2 opMul .field (.op2 opPhase (.loc 1) (.atom .wavelength)) }
+
+/-- atmospheric layers: the achromatic screen for the current centre (`param 0`, set by
+`evolve_until`) of the current noise realisation (`param 1`). -/
+def iLayerSpec : IExpr := .op2 opShift (.atom (.param 1)) (.atom (.param 0))
+def iLayer : IProg :=
+  { keyAtoms := fun _ => [.param 0, .param 1], spec := fun _ => iLayerSpec,
+    body := [.memoRead 1 0 iLayerSpec, .memoFill 0 iLayerSpec],
+    ret := .op2 opMul .field (.op2 opPhase (.loc 1) (.atom .wavelength)) }
+
+/-- Fourier objects (`FastFourierTransform`, `MatrixFourierTransform`, `FourierFilter`): matrices /
+transfer function are a memo for the working precision (`param 0`); `internal_array` /
+`intermediate_array` is a scratch buffer, fully written before it is read in every call. -/
+def iFourierSpec : IExpr := .op1 opMatrices (.atom (.param 0))
+def iFourier : IProg :=
+  { keyAtoms := fun _ => [.param 0], spec := fun _ => iFourierSpec,
+    body := [.memoRead 1 0 iFourierSpec, .memoFill 0 iFourierSpec,
+             .scratchWrite 0 (.op1 opPad .field), .scratchRead 2 0,
+             .scratchWrite 0 (.op2 opFT (.loc 2) (.loc 1)), .scratchRead 3 0],
+    ret := .loc 3 }
+
+/-- propagators: an agnostic instance (cell 0) that owns a Fourier object (cell 1, scratch 0). -/
+def iPropagator : IProg :=
+  { keyAtoms := fun c => if c = 0 then [.param 0, .grid, .wavelength] else [.param 1],
+    spec := fun c => if c = 0 then iAgnosticSpec else .op1 opMatrices (.atom (.param 1)),
+    body := [.memoRead 1 0 iAgnosticSpec, .memoFill 0 iAgnosticSpec,
+             .memoRead 2 1 (.op1 opMatrices (.atom (.param 1))), .memoFill 1 (.op1 opMatrices (.atom (.param 1))),
+             .scratchWrite 0 (.op1 opPad .field), .scratchRead 3 0],
+    ret := .op2 opFT (.loc 3) (.op2 opMul (.loc 1) (.loc 2)) }
+
+/-- `ModulatedPyramidWavefrontSensorOptics`: sets the actuators of the tip-tilt mirror it owns to
+each modulation point in turn; what stays behind is the last point, a function of its parameters. -/
+def iModulatedSpec : IExpr := .op1 opPoint (.atom (.param 0))
+def iModulated : IProg :=
+  { keyAtoms := fun _ => [.param 0], spec := fun _ => iModulatedSpec,
+    body := [.memoFill 0 iModulatedSpec, .memoRead 1 0 iModulatedSpec],
+    ret := .op2 opMul .field (.loc 1) }
+
+/-- **Seeded defect class 1** — a stored array handed out and corrected in place
+(`ModalAdaptiveOpticsLayer.phase_for` at λ = 1 when the wrapped layer returns its stored screen
+itself): the cell ends up holding a value that depends on how often it was used. -/
+def iModalAOOld : IProg :=
+  { keyAtoms := fun _ => [.param 0], spec := fun _ => .op1 opShift (.atom (.param 0)),
+    body := [.memoRead 1 0 (.op1 opShift (.atom (.param 0))), .memoFill 0 (.loc 1),
+             .letE 2 (.op2 opSub (.loc 1) (.atom (.param 1))), .cellUpdate 0 (.loc 2)],
+    ret := .op2 opMul .field (.loc 2) }
+
+/-- **Seeded defect class 2** — a cache not keyed by what its contents depend on: instance data
+that depends on the wavelength stored under the grid alone. -/
+def iUnkeyed : IProg :=
+  { keyAtoms := fun _ => [.grid], spec := fun _ => .op1 opMake (.atom .wavelength),
+    body := [.memoRead 1 0 (.op1 opMake (.atom .wavelength)), .memoFill 0 (.op1 opMake (.atom .wavelength))],
+    ret := .op2 opMul .field (.loc 1) }
+
+/-- a work buffer read before it is written in this call (left over from the previous call). -/
+def iStaleScratch : IProg :=
+  { keyAtoms := fun _ => [], spec := fun _ => .atom .grid,
+    body := [.scratchRead 1 0, .scratchWrite 0 .field], ret := .op2 opAdd .field (.loc 1) }
+
+/-- name, program, attribute names of its memo cells, attribute names of its scratch buffers —
+as they appear on the Python objects (the harness compares these with the attributes it sees change). -/
+def internalPrograms : List (String × IProg × List String × List String) :=
+  [("stateless", iStateless, [], []),
+   ("agnosticInstance", iAgnostic, ["_instance_data_cache", "_num_in_cache"], []),
+   ("mirrorSurface", iMirror, ["_surface", "_actuators_for_cached_surface"], []),
+   ("layerScreen", iLayer, ["_achromatic_screen"], []),
+   ("fourierObject", iFourier,
+      ["M", "M1", "M2", "weights_input", "weights_output", "matrices_dtype", "intermediate_dtype",
+       "_transfer_function", "internal_array", "intermediate_array"],
+      ["internal_array", "intermediate_array"]),
+   ("propagator", iPropagator, ["_instance_data_cache", "_num_in_cache"], []),
+   ("modulatedPyramid", iModulated, ["tip_tilt_mirror"], [])]
+
+def internalByName (n : String) : Option (IProg × List String × List String) :=
+  if n == "modalAOOld" then some (iModalAOOld, ["_achromatic_screen"], [])
+  else if n == "unkeyed" then some (iUnkeyed, ["_instance_data_cache"], [])
+  else (internalPrograms.find? (·.1 == n)).map (·.2)
+
 end HcipyVerif.Elements
